@@ -58,7 +58,13 @@ def reconcile_single(I, pd, crate=""):
 def call_write(I, lang, method, lang_value, item):
     """<Lang as Language>::write_struct / write_enum / write_type_alias / write_const"""
     w = DynWrite()
-    res = I.call_static("<%s as language::Language>::%s" % (LANGS[lang], method), [Ref([lang_value], 0), w, Ref([item], 0)])
+    tn = LANGS[lang].split("::")[-1]
+    inherent = I.prog.methods.get((tn, None, method))
+    if inherent is not None and (tn, "Language", method) not in I.prog.methods:
+        # e.g. Go::write_enum is an inherent method called by Go's own generate_types
+        res = I.call_mir(inherent, [Ref([lang_value], 0), w, Ref([item], 0)])
+    else:
+        res = I.call_static("<%s as language::Language>::%s" % (LANGS[lang], method), [Ref([lang_value], 0), w, Ref([item], 0)])
     return res.variant == 0, w
 
 
